@@ -108,7 +108,19 @@ def gen_kernel_case(rng, size):
             ts.append(t)
             if t < prev:
                 break
-    return {"n": n, "m": m, "a": a, "b": b, "c": c, "e": e, "bi": bi,
+    prelude = None
+    if rng.random() < 0.4:
+        # history on ONE integrator object: an earlier session (other state,
+        # possibly other shape, other start time) before set_initial_value
+        mp = rng.choice([m, 1, n])
+        tp = Fr(rng.randint(-3, 3), rng.choice([1, 2]))
+        tsp, tt = [], tp
+        for _ in range(rng.choice([1, 2, 3])):
+            tt = tt + h * Fr(rng.randint(1, 9), 4)
+            tsp.append(tt)
+        prelude = {"y0": [[(rng.randint(-3, 3), rng.randint(-3, 3)) for _ in range(mp)]
+                          for _ in range(n)], "t0": tp, "ts": tsp}
+    return {"n": n, "m": m, "a": a, "b": b, "c": c, "e": e, "bi": bi, "prelude": prelude,
             "M0": M0, "M1": M1, "y0": y0, "t0": t0, "h": h, "ts": ts,
             "adaptive": adaptive,
             "op_dtype": rng.choice(["Dense", "CSR", "Dia"]),
@@ -121,6 +133,8 @@ def case_to_json(case):
             return [x.numerator, x.denominator]
         if isinstance(x, (list, tuple)):
             return [f(e) for e in x]
+        if isinstance(x, dict):
+            return {k: f(v) for k, v in x.items()}
         return x
     return {k: f(v) for k, v in case.items()}
 
@@ -142,6 +156,8 @@ def case_from_json(d):
     c["b"], c["c"], c["e"], c["ts"] = frl(d["b"]), frl(d["c"]), frl(d["e"]), frl(d["ts"])
     c["t0"], c["h"] = fr(d["t0"]), fr(d["h"])
     c["M0"], c["M1"], c["y0"] = gm(d["M0"]), gm(d["M1"]), gm(d["y0"])
+    pr = d.get("prelude")
+    c["prelude"] = None if not pr else {"y0": gm(pr["y0"]), "t0": fr(pr["t0"]), "ts": frl(pr["ts"])}
     return c
 
 
@@ -301,6 +317,15 @@ def impl_session(case):
     y0 = qutip.data.Dense(arr(case["y0"]).reshape(n, m))
     if case["state_dtype"] == "CSR":
         y0 = qutip.data.to(qutip.data.CSR, y0)
+    pr = case.get("prelude")
+    if pr:
+        yp = np.array([[complex(x, y) for x, y in r] for r in pr["y0"]], dtype=complex)
+        yp = qutip.data.Dense(yp.reshape(n, -1))
+        if case["state_dtype"] == "CSR":
+            yp = qutip.data.to(qutip.data.CSR, yp)
+        ode.set_initial_value(yp, float(pr["t0"]))
+        for t in pr["ts"]:
+            ode.integrate(float(t))
     ode.set_initial_value(y0, float(case["t0"]))
     outs = []
     for t in case["ts"]:
@@ -421,6 +446,8 @@ def run_kernel_corr(ctx, rng, ncases):
         model = model_canon(vlib.parse_coq_value(vals[k]))
         dist["adaptive" if c["adaptive"] else "fixed"] += 1
         dist["time_dependent"] += 1 if c["M1"] is not None else 0
+        dist["object_reused_after_earlier_session"] = (
+            dist.get("object_reused_after_earlier_session", 0) + (1 if c.get("prelude") else 0))
         dist["interpolated_outputs"] += sum(1 for j in range(len(c["ts"])) if _is_interp(c, j))
         dist["op_dtype"][c["op_dtype"]] = dist["op_dtype"].get(c["op_dtype"], 0) + 1
         dist["state_dtype"][c["state_dtype"]] = dist["state_dtype"].get(c["state_dtype"], 0) + 1
@@ -1094,6 +1121,326 @@ def check_floquet_br_case(sysd):
     return bad
 
 
+# ---- histories on ONE solver object -------------------------------------
+def _herm(rng, N, den, sparse=False):
+    A = np.zeros((N, N), dtype=complex)
+    for i in range(N):
+        for j in range(i, N):
+            if sparse and j > i and rng.random() < 0.55:
+                continue
+            A[i, j] = complex(rng.randint(-2, 2), rng.randint(-2, 2) if j > i else 0) / den
+            A[j, i] = np.conj(A[i, j])
+    return A
+
+
+def gen_history(rng, kind, N):
+    """One system and a list of runs for ONE solver object.  Runs alternate
+    'special' initial states (eigenstates / stationary states / states in a
+    small invariant subspace / basis states) with generic ones, use different
+    start times, tiny and non-unit norms, the start/step interface, and
+    option changes between runs."""
+    H = _herm(rng, N, 4 if N > 6 else 2, sparse=N > 6)
+    if kind == "se":
+        ev, V = np.linalg.eigh(H)
+        L = None
+        dim = N
+
+        def generic():
+            v = np.array([complex(rng.gauss(0, 1), rng.gauss(0, 1)) for _ in range(N)])
+            return v / np.linalg.norm(v)
+        a, b = rng.sample(range(N), 2)
+        special = [("eigenstate", V[:, a].copy()),
+                   ("two-eigenstates", (V[:, a] + 1j * V[:, b]) / np.sqrt(2)),
+                   ("basis", np.eye(N, dtype=complex)[:, rng.randrange(N)])]
+        generic_s = [("generic", generic()), ("tiny", 1e-6 * generic()),
+                     ("norm-2", 2 * generic()), ("generic", generic())]
+        cops = []
+    else:
+        cops = [np.triu(_herm(rng, N, 4), 1) + np.diag([rng.randint(0, 2) / 4 for _ in range(N)])
+                for _ in range(rng.choice([1, 2]))]
+        I = np.eye(N)
+        L = -1j * (np.kron(I, H) - np.kron(H.T, I))
+        for c in cops:
+            cd = c.conj().T @ c
+            L = L + np.kron(c.conj(), c) - 0.5 * np.kron(I, cd) - 0.5 * np.kron(cd.T, I)
+        dim = N * N
+        w, vecs = np.linalg.eig(L)
+        ss = vecs[:, np.argmin(abs(w))].reshape(N, N, order="F")
+        ss = ss / np.trace(ss)
+        ss = (ss + ss.conj().T) / 2
+
+        def generic():
+            v = np.array([[complex(rng.gauss(0, 1), rng.gauss(0, 1)) for _ in range(N)]
+                          for _ in range(N)])
+            r = v @ v.conj().T
+            return r / np.trace(r)
+        e0 = np.zeros((N, N), dtype=complex)
+        k = rng.randrange(N)
+        e0[k, k] = 1
+        special = [("stationary", ss), ("basis-projector", e0), ("maximally-mixed", np.eye(N) / N)]
+        generic_s = [("generic", generic()), ("tiny", 1e-6 * generic()),
+                     ("trace-2", 2 * generic()), ("generic", generic())]
+    rng.shuffle(special)
+    rng.shuffle(generic_s)
+    T = 6.0 if N > 6 else 2.0
+    starts = [0.0, 0.7, -1.0, 0.0, 2.5, 0.0]
+    runs = []
+    for k in range(6):
+        nm, st = (special[(k // 2) % len(special)] if k % 2 == 0 else generic_s[(k // 2) % len(generic_s)])
+        t0 = starts[k] if k > 0 else 0.0
+        runs.append({"state_name": nm, "state": st, "t0": t0,
+                     "tlist": [t0, t0 + T / 3, t0 + T],
+                     "api": "start/step" if k == 3 else "run",
+                     "loose": k == 2,          # tolerances loosened for this run, tightened after
+                     "form": rng.choice(["dm", "operket"]) if kind == "me" and k == 5 else
+                             ("ket" if kind == "se" else "dm")})
+    return {"kind": kind, "N": N, "H": H, "cops": cops, "L": L, "dim": dim, "runs": runs}
+
+
+def hist_to_json(h):
+    def c(a):
+        return [[[float(v.real), float(v.imag)] for v in r] for r in np.atleast_2d(a)]
+    return {"kind": h["kind"], "N": h["N"], "H": c(h["H"]), "cops": [c(x) for x in h["cops"]],
+            "runs": [{**{k: v for k, v in r.items() if k != "state"}, "state": c(r["state"])}
+                     for r in h["runs"]]}
+
+
+def hist_from_json(d):
+    def m(a):
+        return np.array([[complex(v[0], v[1]) for v in r] for r in a])
+    N = d["N"]
+    h = {"kind": d["kind"], "N": N, "H": m(d["H"]), "cops": [m(x) for x in d["cops"]], "L": None,
+         "dim": N if d["kind"] == "se" else N * N, "runs": []}
+    for r in d["runs"]:
+        st = m(r["state"])
+        st = st.reshape(-1) if d["kind"] == "se" else st.reshape(N, N)
+        h["runs"].append({**r, "state": st})
+    if d["kind"] == "me":
+        I = np.eye(N)
+        L = -1j * (np.kron(I, h["H"]) - np.kron(h["H"].T, I))
+        for c in h["cops"]:
+            cd = c.conj().T @ c
+            L = L + np.kron(c.conj(), c) - 0.5 * np.kron(I, cd) - 0.5 * np.kron(cd.T, I)
+        h["L"] = L
+    return h
+
+
+LOOSE = {"atol": 1e-6, "rtol": 1e-4}
+KRY_SITE = "krylov.set_state"
+KRY_SIG = "initial-state-of-norm-not-1"
+
+
+def krylov_norm_witness(ctx):
+    """sesolve(method='krylov') is linear in the initial ket: the witness that
+    a ket of norm 2 is evolved wrongly by a fresh solver (2-level system)."""
+    import qutip
+    import scipy.linalg as sl
+    Hm = np.array([[1, 0.5], [0.5, -1]], dtype=complex)
+    worst = 0.0
+    for c in (2.0, 0.5):
+        psi = c * qutip.basis(2, 0)
+        r = qutip.sesolve(qutip.Qobj(Hm), psi, [0, 1.0],
+                          options={"method": "krylov", "normalize_output": False,
+                                   "store_states": True, "progress_bar": ""})
+        ref = sl.expm(-1j * Hm) @ psi.full()
+        worst = max(worst, float(np.linalg.norm(r.states[-1].full() - ref)) / c)
+    ctx.count_case(("krylov-norm-witness",), nontrivial=True)
+    if worst > 1e-6:
+        ctx.violation(KRY_SITE, KRY_SIG,
+                      "sesolve(H, c*|0>, [0,1], method='krylov') is not c times the evolution of |0>: "
+                      "relative error %.2f for H=[[1,.5],[.5,-1]], c in (2, 0.5)" % worst,
+                      {"kind": "krylov_norm_witness", "relative_error": worst,
+                       "snippet": "sesolve(Qobj([[1,.5],[.5,-1]]), 2*basis(2,0), [0,1], options="
+                                  "{'method':'krylov','normalize_output':False}).states[-1]"},
+                      found_input=True)
+
+
+def _set_tol(solver, method, loose):
+    """option change on a live solver object"""
+    if method in ("adams", "bdf", "lsoda", "dop853", "vern7", "vern9"):
+        solver.options["atol"] = LOOSE["atol"] if loose else ATOL
+        solver.options["rtol"] = LOOSE["rtol"] if loose else RTOL
+    elif method == "krylov":
+        solver.options["atol"] = LOOSE["atol"] if loose else ATOL
+
+
+def _htol(method, loose, ref):
+    if method in ("diag",):
+        return SAFETY * ATOL * max(1.0, np.linalg.norm(ref))
+    at, rt = (LOOSE["atol"], LOOSE["rtol"]) if loose else (ATOL, RTOL)
+    if method == "krylov":
+        rt = 0.0
+        at = at * 50          # krylov's atol bounds one subspace, errors add up over steps
+    return SAFETY * (at + rt * np.linalg.norm(ref))
+
+
+def check_history(h, method, fresh_too=True):
+    """Run the whole history on ONE solver object; every stored state must be
+    the exact evolution of that run's initial state from that run's start
+    time, and (time permitting) equal to what a fresh object returns."""
+    import qutip
+    import scipy.linalg as sl
+    N, kind = h["N"], h["kind"]
+
+    def mk():
+        if kind == "se":
+            return qutip.SESolver(qutip.Qobj(h["H"]), options=_opts(method, {"store_states": True}))
+        return qutip.MESolver(qutip.Qobj(h["H"]), [qutip.Qobj(c) for c in h["cops"]],
+                              options=_opts(method, {"store_states": True}))
+
+    def qstate(r):
+        if kind == "se":
+            return qutip.Qobj(r["state"].reshape(N, 1))
+        q = qutip.Qobj(r["state"].reshape(N, N))
+        return qutip.operator_to_vector(q) if r["form"] == "operket" else q
+
+    def exact(r, t):
+        if kind == "se":
+            return sl.expm(-1j * h["H"] * (t - r["t0"])) @ r["state"].reshape(N, 1)
+        v = sl.expm(h["L"] * (t - r["t0"])) @ r["state"].reshape(N, N).reshape(-1, 1, order="F")
+        return v if r["form"] == "operket" else v.reshape(N, N, order="F")
+
+    def evolve(solver, r):
+        if r["api"] == "run":
+            return [x.full() for x in solver.run(qstate(r), r["tlist"]).states]
+        solver.start(qstate(r), r["tlist"][0])
+        out = [qstate(r).full()]
+        for t in r["tlist"][1:]:
+            out.append(solver.step(t).full())
+        return out
+
+    bad = []
+    if method == "krylov":
+        # States of norm != 1: a fresh object on each such single run decides
+        # whether the krylov integrator handles them at all.  If it does not
+        # (own site/signature), those runs - and their after-effects on the
+        # step length kept inside the object - are taken out of the history by
+        # normalising the states, and the history is checked in that form, so
+        # that every other carried-over state stays visible.  If it does, the
+        # history is checked as generated.
+        nonunit = [r for r in h["runs"] if abs(np.linalg.norm(r["state"]) - 1) > 1e-9]
+        for r in nonunit:
+            f = mk()
+            _set_tol(f, method, r["loose"])
+            fg = evolve(f, r)
+            e = max(np.linalg.norm(fg[j] - exact(r, t)) for j, t in enumerate(r["tlist"]))
+            if any(not np.linalg.norm(fg[j] - exact(r, t)) <= _htol(method, r["loose"], exact(r, t))
+                   for j, t in enumerate(r["tlist"])):
+                nrm = np.linalg.norm(r["state"])
+                bad.append((KRY_SIG, "krylov on a fresh SESolver with an initial ket of norm %.3g: "
+                                     "error %.2e (relative %.2e)" % (nrm, e, e / nrm)))
+                break
+        if bad:
+            h = dict(h, runs=[dict(r, state=r["state"] / np.linalg.norm(r["state"]),
+                                   state_name=r["state_name"] + "(normalised)")
+                              if abs(np.linalg.norm(r["state"]) - 1) > 1e-9 else r
+                              for r in h["runs"]])
+    solver = mk()
+    for k, r in enumerate(h["runs"]):
+        _set_tol(solver, method, r["loose"])
+        got = evolve(solver, r)
+        prev = h["runs"][k - 1]["state_name"] if k else "-"
+        for j, t in enumerate(r["tlist"]):
+            ref = exact(r, t)
+            err = np.linalg.norm(got[j] - ref)
+            if not err <= _htol(method, r["loose"], ref):
+                bad.append(("history-vs-exact",
+                            "run %d of a history on one %s object (%s, %s state after a %s state, "
+                            "t0=%g, %s): state at t=%g differs from the exact evolution by %.2e"
+                            % (k, "SESolver" if kind == "se" else "MESolver", method,
+                               r["state_name"], prev, r["t0"], r["api"], t, err)))
+                break
+        if [b for b in bad if b[0] != KRY_SIG]:
+            break
+        if fresh_too:
+            f = mk()
+            _set_tol(f, method, r["loose"])
+            fg = evolve(f, r)
+            for j, t in enumerate(r["tlist"]):
+                ref = exact(r, t)
+                err = np.linalg.norm(got[j] - fg[j])
+                if not err <= 2 * _htol(method, r["loose"], ref):
+                    bad.append(("history-vs-fresh",
+                                "run %d (%s, %s after %s): reused object and fresh object differ "
+                                "by %.2e at t=%g" % (k, method, r["state_name"], prev, err, t)))
+                    break
+            if [b for b in bad if b[0] != KRY_SIG]:
+                break
+    return bad
+
+
+def check_history_td(sysd, method):
+    """time-dependent generator: several runs on one SESolver with different
+    states and start times against scipy DOP853 started at each run's t0"""
+    import qutip
+    from scipy.integrate import solve_ivp
+    N = sysd["N"]
+    w = 1.5
+    Hm, H1m = sysd["H"], sysd["H1"]
+    Ht = qutip.QobjEvo([qutip.Qobj(Hm), [qutip.Qobj(H1m), lambda t: np.cos(w * t)]])
+    solver = qutip.SESolver(Ht, options=_opts(method, {"store_states": True}))
+    psi = sysd["psi"].reshape(N, 1)
+    e0 = np.zeros((N, 1), dtype=complex)
+    e0[0, 0] = 1
+    bad = []
+    for k, (st, t0) in enumerate([(e0, 0.0), (psi, 0.9), (1e-6 * psi, -0.5), (psi, 0.0)]):
+        tl = [t0, t0 + 0.6, t0 + 1.7]
+
+        def rhs(t, y):
+            return (-1j * (Hm + np.cos(w * t) * H1m) @ y.reshape(N, 1)).reshape(-1)
+        sol = solve_ivp(rhs, (tl[0], tl[-1]), st.reshape(-1).astype(complex), method="DOP853",
+                        t_eval=tl, rtol=1e-12, atol=1e-15)
+        res = solver.run(qutip.Qobj(st), tl)
+        for j in range(len(tl)):
+            err = np.linalg.norm(res.states[j].full().reshape(-1) - sol.y[:, j])
+            if not err <= _tol(st):
+                bad.append(("history-td-vs-reference",
+                            "run %d of a history on one SESolver (%s, H(t), t0=%g): differs from "
+                            "the reference by %.2e at t=%g" % (k, method, t0, err, tl[j])))
+                return bad
+    return bad
+
+
+def run_history_oracle(ctx, rng, nsys):
+    dist = {"se_histories": 0, "me_histories": 0, "td_histories": 0, "runs_per_history": 6}
+    for k in range(nsys):
+        hs = [gen_history(rng, "se", rng.choice([12, 13, 14])),
+              gen_history(rng, "se", rng.choice([2, 3, 4]))]
+        for h in hs:
+            for method in SE_METHODS:
+                _guard_h(ctx, "history:sesolve", [method, "N>=12" if h["N"] > 6 else "small"], h,
+                         lambda: check_history(h, method, fresh_too=(h["N"] > 6 or k == 0)))
+                dist["se_histories"] += 1
+        hm = gen_history(rng, "me", rng.choice([2, 3]))
+        for method in ME_METHODS:
+            _guard_h(ctx, "history:mesolve", [method], hm, lambda: check_history(hm, method))
+            dist["me_histories"] += 1
+        sysd = gen_system(rng)
+        for method in (["adams", "vern7", "bdf"], ["lsoda", "vern9", "dop853"])[k % 2]:
+            _guard(ctx, "history_td", [method], sysd, lambda: check_history_td(sysd, method))
+            dist["td_histories"] += 1
+    ctx.cov["input_distribution"]["history_runs"] = dist
+    ctx.log("history oracle: %d sesolve, %d mesolve, %d time-dependent histories on one solver object"
+            % (dist["se_histories"], dist["me_histories"], dist["td_histories"]))
+
+
+def _guard_h(ctx, site, key, h, fn):
+    try:
+        bad = fn()
+    except Exception as e:              # noqa
+        bad = [("raises", "%s: %s" % (type(e).__name__, str(e)[:300]))]
+    ctx.count_case((site, tuple(key), json.dumps(hist_to_json(h), sort_keys=True)), nontrivial=True)
+    for sig, what in bad:
+        if sig == KRY_SIG:
+            ctx.violation(KRY_SITE, KRY_SIG, what,
+                          {"kind": "history", "method": key[0], "history": hist_to_json(h)},
+                          found_input=True)
+            continue
+        ctx.violation("oracle:%s" % site, key + [sig], what,
+                      {"kind": "history", "method": key[0], "history": hist_to_json(h)},
+                      found_input=True)
+
+
 def run_oracle(ctx, rng, budget):
     """budget: number of random systems"""
     import qutip
@@ -1314,6 +1661,8 @@ def run(ctx):
         run_validation(ctx, rng, tabs)
     # ---- O
     run_oracle(ctx, rng, 3 if ctx.quick else 30)
+    krylov_norm_witness(ctx)
+    run_history_oracle(ctx, rng, 1 if ctx.quick else 6)
     ctx.cov["explanation"] = (
         "Proved (all inputs): the RK kernel commutes with linear maps between state spaces "
         "(route agreement step by step), a step on y'=Ly is the kernel's own symbolic polynomial "
@@ -1347,6 +1696,8 @@ def replay(ctx, payload):
             bad = check_se_case(sysd, *key[:3])
         elif d["which"] == "mesolve":
             bad = check_me_case(sysd, *key[:4])
+        elif d["which"] == "history_td":
+            bad = check_history_td(sysd, key[0])
         elif d["which"] == "floquet_br":
             bad = check_floquet_br_case(sysd)
             key = []
@@ -1357,6 +1708,17 @@ def replay(ctx, payload):
                 ctx.violation(FSE_SITE, FSE_SIG, what, d)
             else:
                 ctx.violation(payload["site"], key + [sig], what, d)
+    elif kind == "history":
+        h = hist_from_json(d["history"])
+        for sig, what in check_history(h, d["method"]):
+            if sig == KRY_SIG:
+                ctx.violation(KRY_SITE, KRY_SIG, what, d)
+            else:
+                sg = payload["signature"]
+                ctx.violation(payload["site"], (sg[:-1] if isinstance(sg, list) else [d["method"]]) + [sig],
+                              what, d)
+    elif kind == "krylov_norm_witness":
+        krylov_norm_witness(ctx)
     elif kind == "tableau":
         tableau_search(ctx, d.get("failed_theorems", []), "")
     elif kind == "validation":
